@@ -507,7 +507,7 @@ class DBStorage(BaseStorage):
 
 
 class Subscription(BaseSubscription):
-    __slots__ = ("is_postgres",)
+    __slots__ = ("is_postgres", "params")
 
     def __init__(
         self,
@@ -611,14 +611,21 @@ class Subscription(BaseSubscription):
                 pstr = []
                 for val in tags:
                     if val:
-                        val = val.replace("'", "''")
-                        pstr.append(f"'{val}'")
+                        pstr.append(self.bind(val))
                 if pstr:
                     pstr = ",".join(pstr)
                     subwhere.append(
-                        f"id IN (SELECT id FROM tags WHERE name = '{tagname}' AND value IN ({pstr})) "
+                        f"id IN (SELECT id FROM tags WHERE name = {self.bind(tagname)} AND value IN ({pstr})) "
                     )
         return filter_obj
+
+    def bind(self, value):
+        """
+        Register a client-supplied string as a bound parameter and return its placeholder
+        """
+        name = f"p{len(self.params)}"
+        self.params[name] = value
+        return f":{name}"
 
     def build_query(self, filters):
         select = """
@@ -627,6 +634,7 @@ class Subscription(BaseSubscription):
         where = set()
         limit = None
         new_filters = []
+        self.params = {}
         for filter_obj in filters:
             subwhere = []
             try:
@@ -653,7 +661,10 @@ class Subscription(BaseSubscription):
             ORDER BY created_at DESC
             LIMIT {limit}
         """
-        return sa.text(select), new_filters
+        query = sa.text(select)
+        if self.params:
+            query = query.bindparams(**self.params)
+        return query, new_filters
 
 
 class QueryGarbageCollector(BaseGarbageCollector):
